@@ -105,6 +105,10 @@ def handle (op : String) (args : List String) : Option String :=
     let ctx ← kvBytes args "ctx"
     let ct ← kvBytes args "ct"
     runProg (decryptProg sk ctx ct) args
+  | "limit" => do
+    -- the size guards of encryptL / decryptL on a message of n bytes: does the sender accept it, may the receiver return it
+    let n ← kvNat args "n"
+    some (if n > maxMessage then "refused" else "ok")
   | "derive" => do
     let sk ← kvBytes args "priv"
     let ctx ← kvBytes args "ctx"
@@ -162,6 +166,34 @@ def handle (op : String) (args : List String) : Option String :=
     match addSessionTrackerRef l r with
     | none => some "err"
     | some t => some s!"ok key={hexOrDash t.key} offerer={if t.offerer then 1 else 0} link={showOpt t.linkPeer} pub={showOpt t.signalPub}"
+  | "handles" => do
+    -- local: raw peer ID of the transport; sig / want: the directive's and the transport's signaling ID;
+    -- sl / sr: raw local / remote peer ID of the signaling session; block: blocked peer ID strings
+    let l ← kvBytes args "local"
+    let sg ← kvBytes args "sig"
+    let want ← kvBytes args "want"
+    let sl ← kvBytes args "sl"
+    let sr ← kvBytes args "sr"
+    let blk ← kvBytesList args "block"
+    let t : Transport := { localID := l, signalingID := want, blockPeers := blk }
+    some (if t.answers sg sl sr then "resolver" else "no-resolver")
+  | "dial" => do
+    let l ← kvBytes args "local"
+    let p ← kvBytes args "peer"
+    let blk ← kvBytesList args "block"
+    let t : Transport := { localID := l, blockPeers := blk }
+    match t.dialPeer p with
+    | .refused => some "refused"
+    | .err => some "err"
+    | .tracker tk => some s!"ok key={hexOrDash tk.key} offerer={if tk.offerer then 1 else 0} link={showOpt tk.linkPeer} pub={showOpt tk.signalPub}"
+  | "peerDialer" => do
+    let l ← kvBytes args "local"
+    let p ← kvBytes args "peer"
+    let blk ← kvBytesList args "block"
+    let dl ← kvBytesList args "dialers"
+    let all ← kvNat args "all"
+    let t : Transport := { localID := l, blockPeers := blk, allPeers := all != 0, dialers := dl }
+    some (if t.offersDialer p then "dialer" else "none")
   | "linkaccept" => do
     -- the tracker `local` holds for `signaled`; its Quic session completes with `actual` iff the
     -- TLS layer's expected peer (what the tracker hands over) is `actual` (C03)
